@@ -24,6 +24,20 @@ def run(tier):
                             'solver': {'backend': 'native-bounded', 'verdict': 'counterexample', 'output': ''}})
     elif 'error' in res:
         pr.errors.append('data witness failed to run: ' + str(res['error'])[-300:])
+    # CSV typing is not under contract: bounded native round trip
+    import os
+    with open(os.path.join(os.path.dirname(os.path.dirname(os.path.abspath(__file__))), 'native', 'witness', 'csv_witness.py'), encoding='utf-8') as fh:
+        csv_res = run_witness(fh.read(), timeout=300)
+    pr.bounded.append('data.validate_data / dataParseCSV: bounded native stand-in — 256 typed tables (number, boolean, datetime, string columns of '
+                      'three rows, a null written as the literal null at every position of every column) written as CSV and read back with the '
+                      'same typed values; date-like text with an out-of-range day stays a string')
+    if csv_res.get('violates'):
+        cx = csv_res['counterexamples'][0]
+        pr.failures.append({'obligation': 'C19.bounded.csv-typing-round-trip', 'function': 'data.validate_data',
+                            'path': '', 'inputs': cx, 'replay': {'reproduced': True, 'observed': csv_res['counterexamples']},
+                            'solver': {'backend': 'native-bounded', 'verdict': 'counterexample', 'output': ''}})
+    elif 'error' in csv_res:
+        pr.errors.append('csv witness failed to run: ' + str(csv_res['error'])[-300:])
     pr.bounded.append('data.top_data: loops over the table are unrolled twice over symbolic rows (bounded, k=2); proved on that bound: no '
                       'exception for a valid count in either spelling, result is a fresh list')
     pr.explanation = ('Proved on the real code: filter_data keeps exactly the rows whose expression value is truthy, in order '
@@ -37,6 +51,6 @@ def run(tier):
         'expressions returned by parse_expression are evaluated under the evaluate_expression contract instantiated for them (meta-argument); data._import_evaluate_expression returns runtime.evaluate_expression',
         'rows are objects distinct from the options and globals objects',
     ]
-    pr.not_proved += ['data.join_data (bounded native stand-in only), data.aggregate_data, data.validate_data, library._data_parse_csv: not under contract',
+    pr.not_proved += ['data.join_data (bounded native stand-in only), data.aggregate_data: not under contract; data.validate_data, library._data_parse_csv: bounded native CSV round trip only',
                       'data.top_data: category bucketing semantics (first n rows per category) not under contract']
     return pr
